@@ -1,5 +1,5 @@
 """C09 translator: facts about BaseOdeModel.parameters (setter) -> coq/Gen/ParamsGen.v"""
-import ast
+import ast, re
 from pyast import *
 
 COPY_FORMS = ("dict(self._parameters)", "self._parameters.copy()", "copy.copy(self._parameters)",
@@ -75,18 +75,36 @@ def generate():
         src = ast.unparse(f)
         if src.count("self._parameters = param_out") != 1 or src.count("self._parameters =") != 1:
             raise Unsupported("final assignment self._parameters = param_out missing or not unique")
+        # --- set_sp (the last statement of the setter): does it leave the committed values alone?
+        g = find_method("model/base_ode_model.py", "BaseOdeModel", "set_sp")
+        keeps = True
+        for n in ast.walk(g):
+            tgts = []
+            if isinstance(n, ast.Assign): tgts = n.targets
+            elif isinstance(n, (ast.AugAssign, ast.AnnAssign)): tgts = [n.target]
+            elif isinstance(n, ast.Delete): tgts = n.targets
+            for tg in tgts:
+                if re.match(r"self\._(paramValue|parameters)\b", ast.unparse(tg)):
+                    keeps = False
+            if isinstance(n, ast.Call):
+                fn = ast.unparse(n.func)
+                if re.match(r"self\._(paramValue|parameters)\.", fn) or fn in ("setattr", "self.__setattr__"):
+                    keeps = False
+                elif fn.startswith("self.") and fn != "self._hasNewTransition.trip":
+                    raise Unsupported("set_sp calls %s (not followed)" % fn)
         return ("(* GENERATED from base_ode_model.py: BaseOdeModel.parameters setter *)\n"
                 "Definition translator_ok := true.\n"
                 "Definition dict_branch_aliases := %s.\n"
                 "Definition pairs_key_index := %d.\nDefinition pairs_value_index := %d.\n"
                 "Definition rebuild_loop_is_canonical := %s.\n"
                 "Definition commit_is_atomic := %s.\n"
-                % (coq_bool(alias), key_idx, val_idx, coq_bool(canonical), coq_bool(atomic)))
+                "Definition setsp_keeps_values := %s.\n"
+                % (coq_bool(alias), key_idx, val_idx, coq_bool(canonical), coq_bool(atomic), coq_bool(keeps)))
     except (Unsupported, ValueError, TypeError, IndexError, KeyError, AttributeError, AssertionError, RecursionError) as u:   # any surprise in the source = fail closed
         return (failed("ParamsGen", str(u)) +
                 "Definition dict_branch_aliases := true.\nDefinition pairs_key_index := 0.\n"
                 "Definition pairs_value_index := 0.\nDefinition rebuild_loop_is_canonical := false.\n"
-                "Definition commit_is_atomic := false.\n")
+                "Definition commit_is_atomic := false.\nDefinition setsp_keeps_values := false.\n")
 
 
 if __name__ == "__main__":
